@@ -62,3 +62,13 @@ Print Assumptions C11_judge_stack_sound.
 Example C11_example_trace :
   judge_stack [1; 4;  1; 100; 120;  1; 5000; 4096 + 5016;  2; 0; 120;  2; 0; 0] = 0.
 Proof. vm_compute. reflexivity. Qed.
+
+(* ---------- the judge accepts EXACTLY the records that satisfy its specification (JudgeComplete3.v): completeness besides soundness,
+   a record of a correct answer is never rejected ---------- *)
+From Cmr Require JudgeComplete3.
+Theorem C11_judge_stack_accepts_exactly_the_specification :
+    forall (rec : list Z) (dbg : bool) (evs : list (Z * Z * Z)) (rest : list Z),
+    JudgeComplete3.stack_input rec = Some (dbg, evs, rest) ->
+    StackModel.judge_stack rec = 0%Z <-> JudgeComplete3.stack_spec dbg evs.
+Proof. exact JudgeComplete3.judge_stack_iff. Qed.
+Print Assumptions C11_judge_stack_accepts_exactly_the_specification.
